@@ -31,6 +31,15 @@ fire("replace-limit-gt", ["C11"], "limit", E("src/lib.rs", "if limit > 0 && i >=
 fire("replace-slow-limit", ["C11"], "slow", E("src/lib.rs", "if limit > 0 && i >= limit {", "if i >= limit {", 1))
 fire("replace-tail", ["C11"], "not appended", E("src/lib.rs", "        new.push_str(&text[last_match..]);\n        Ok(Cow::Owned(new))", "        Ok(Cow::Owned(new))"))
 fire("replacer-dollar", ["C11"], "helper", E("src/replacer.rs", "    if s.contains('$') {\n        None", "    if s.contains('\\\\') {\n        None"))
+# ---------------- compile_alt (path-based loop body)
+fire("alt-split-first-operand", ["C01", "C03"], "compile_alt", E("src/compile.rs", "                self.b.add(Insn::Split(pc + 1, usize::MAX));\n            }\n            if last_pc != usize::MAX {", "                self.b.add(Insn::Split(pc, usize::MAX));\n            }\n            if last_pc != usize::MAX {"))
+fire("alt-patch-first-operand", ["C01", "C03"], "compile_alt", E("src/compile.rs", "self.b.set_split_target(last_pc, pc, true);", "self.b.set_split_target(last_pc, pc, false);"))
+fire("alt-last-not-updated", ["C01", "C03"], "compile_alt", E("src/compile.rs", "            last_pc = pc;\n\n            handle_alternative(self, i)?;", "            handle_alternative(self, i)?;"))
+fire("alt-jmp-stale-pc", ["C01", "C03"], "compile_alt", E("src/compile.rs", "                let pc = self.b.pc();\n                jmps.push(pc);\n                self.b.add(Insn::Jmp(0));", "                jmps.push(pc);\n                self.b.add(Insn::Jmp(0));"))
+fire("alt-pc-after-split", ["C01", "C03"], "compile_alt", E("src/compile.rs", "            let pc = self.b.pc();\n            if has_next {\n                self.b.add(Insn::Split(pc + 1, usize::MAX));\n            }\n            if last_pc != usize::MAX {", "            if has_next {\n                self.b.add(Insn::Split(self.b.pc() + 1, usize::MAX));\n            }\n            let pc = self.b.pc();\n            if last_pc != usize::MAX {"))
+fire("alt-jmp-after-add", ["C01", "C03"], "compile_alt", E("src/compile.rs", "                let pc = self.b.pc();\n                jmps.push(pc);\n                self.b.add(Insn::Jmp(0));", "                self.b.add(Insn::Jmp(0));\n                let pc = self.b.pc();\n                jmps.push(pc);"))
+fire("alt-patch-before-first", ["C01", "C03"], "compile_alt", E("src/compile.rs", "            if last_pc != usize::MAX {\n                self.b.set_split_target(last_pc, pc, true);\n            }\n            last_pc = pc;", "            if last_pc != usize::MAX && has_next {\n                self.b.set_split_target(last_pc, pc, true);\n            }\n            last_pc = pc;"))
+silent("alt-patch-then-split", ["C01", "C03", "C06"], E("src/compile.rs", "            if has_next {\n                self.b.add(Insn::Split(pc + 1, usize::MAX));\n            }\n            if last_pc != usize::MAX {\n                self.b.set_split_target(last_pc, pc, true);\n            }", "            if last_pc != usize::MAX {\n                self.b.set_split_target(last_pc, pc, true);\n            }\n            if has_next {\n                self.b.add(Insn::Split(pc + 1, usize::MAX));\n            }"))
 # ---------------- VM state
 fire("push-nsave-reset", ["C20", "C02"], "State::push", E("src/vm.rs", "            self.nsave = 0;\n            self.trace_stack(\"push\");", "            self.trace_stack(\"push\");"))
 fire("save-logs-new-value", ["C20", "C02"], "State::save", E("src/vm.rs", "        self.oldsave.push(Save {\n            slot,\n            value: self.saves[slot],\n        });", "        self.oldsave.push(Save {\n            slot,\n            value: val,\n        });"))
